@@ -555,6 +555,10 @@ def scope_ocases(okinds: tuple = ("single",)) -> list[dict]:
                     if okind == "dotted":
                         if any("inline" in f["to"] for f in fields):
                             continue
+                        # the passes work per module (see gen_ocase): identical enums of `shared` under --reuse-model and a
+                        # nullable enum of `shared` under --collapse-root-models are used from `app` — not part of the dotted layout
+                        if (combo.get("reuse_model") and label.startswith(("dup:", "nullable:dup"))) or (combo.get("collapse_root_models") and label.startswith("nullable:")):
+                            continue
                         for d in oc["defs"]:
                             d["module"] = ["shared"] if d["is"] == "enum" else ["app"]
                         oc["holder"] = {"name": "Holder", "module": ["app"], "at": "def", "pos": 99}
@@ -647,11 +651,17 @@ def search_order_last(ck: Check) -> None:
 
 
 # ---------------------------------------------------------------- the real passes in another order (harness-side, nothing in /repo changes)
+_LOOP_PASSES: list[str] | None = None
+
+
 def loop_passes() -> list[str]:
     """names (as written, without the two leading underscores) of the `self.__xxx(...)` calls in the per-module loop of Parser.parse"""
-    from ..translate import parse_passes
+    global _LOOP_PASSES
+    if _LOOP_PASSES is None:
+        from ..translate import parse_passes
 
-    return [n for n, _ in parse_passes.extract()[0]]
+        _LOOP_PASSES = [n for n, _ in parse_passes.extract()[0]]
+    return list(_LOOP_PASSES)
 
 
 class permuted_passes:
@@ -716,3 +726,250 @@ class permuted_passes:
     def __exit__(self, *exc: Any) -> None:
         for (c, n), o in self.saved.items():
             setattr(c, "_Parser__" + n, o)
+
+
+# ---------------------------------------------------------------- correspondence: abstract pass semantics vs the real passes, any order
+FOUR = ["set_reference_default_value_to_field", "reuse_model", "collapse_root_models", "set_default_enum_member"]
+PERMS4 = [[a, b, c, d] for a in FOUR for b in FOUR for c in FOUR for d in FOUR if len({a, b, c, d}) == 4]
+VALS = [f"v{i}" for i in range(6)]
+
+
+def gen_pcase(rng: Rng) -> dict:
+    """a one-module document of named string enums (some identical, some with a null entry), alias definitions over the plain
+    ones, a holder whose members refer to them; an option vector; an order of the four passes"""
+    sets = [VALS[:2], VALS[:2], VALS[1:4], VALS[:3], [VALS[4], VALS[0]]]
+    base = rng.choice(sets)
+    defs: list[dict] = []
+    names = list(ENUM_NAMES)
+    for i in range(rng.choice([1, 2, 2, 3])):
+        vals = list(base) if i == 0 or rng.chance(2, 3) else list(rng.choice(sets))
+        if rng.chance(1, 4):
+            vals = [*vals, None]
+        defs.append({"name": names.pop(0), "module": [], "is": "enum", "type": "string", "values": vals})
+    plain = [d for d in defs if None not in d["values"]]
+    anames = list(ALIAS_NAMES)
+    for _ in range(rng.choice([0, 1, 1, 2])):
+        if not plain:
+            break
+        t = rng.choice(plain)
+        a: dict[str, Any] = {"name": anames.pop(0), "module": [], "is": "alias", "target": t["name"]}
+        if rng.chance(1, 2):
+            a["default"] = rng.choice(t["values"])
+        defs.append(a)
+    fields: list[dict] = []
+    props = list(PROPS)
+    for d in defs:
+        for _ in range(2 if rng.chance(1, 4) else 1):
+            if not props:
+                break
+            f: dict[str, Any] = {"name": props.pop(0), "shape": "scalar", "to": {"def": d["name"]}, "wrap": "ref"}
+            e, _ = resolve({"defs": defs, "holder": {"module": []}}, f["to"])
+            if rng.chance(2, 3):
+                f["default"] = rng.choice(non_null(e))
+            fields.append(f)
+    opts = {"set_default_enum_member": not rng.chance(1, 10), **rng.choice(COMBOS)}
+    return {"okind": "single", "model": rng.choice(["pydantic_v2.BaseModel", "pydantic.BaseModel", "dataclasses.dataclass"]), "opts": opts,
+            "defs": rng.shuffle(defs) if rng.chance(1, 3) else defs, "holder": {"name": "Holder", "module": [], "at": "root", "pos": 9},
+            "fields": fields, "four": rng.choice(PERMS4)}
+
+
+def full_order(four: list[str]) -> list[str]:
+    """the passes of the loop with the four modelled ones permuted inside the positions they occupy in the source"""
+    names = loop_passes()
+    it = iter(four)
+    return [next(it) if n in FOUR else n for n in names]
+
+
+class _Abstraction:
+    """real model lists → `Dcg.Model.ParsePasses.St` (ids by reference path, values by their index in VALS)"""
+
+    def __init__(self) -> None:
+        self.ids: dict[str, int] = {}
+        self.problem: str | None = None
+
+    def id_of(self, model: Any) -> int:
+        return self.ids.setdefault(model.reference.path, len(self.ids) + 1)
+
+    def val(self, v: Any) -> int | None:
+        s = str(v).strip("'\"")
+        if s in VALS:
+            return VALS.index(s)
+        self.problem = self.problem or f"value {v!r}"
+        return None
+
+    def target(self, parser: Any, data_type: Any) -> tuple[str, int] | None:
+        from datamodel_code_generator.model.enum import Enum as EnumModel
+
+        for dt in data_type.all_data_types:
+            if dt.reference is not None:
+                src = dt.reference.source
+                if isinstance(src, EnumModel):
+                    return ("e", self.id_of(src))
+                if isinstance(src, parser.data_model_root_type):
+                    return ("r", self.id_of(src))
+                self.problem = self.problem or f"reference to {type(src).__name__}"
+                return None
+        return None
+
+    def fields(self, parser: Any, models: list) -> list[str]:
+        from datamodel_code_generator.model.enum import Member
+
+        out = []
+        holder = next((m for m in models if m.class_name == "Holder"), None)
+        if holder is None:
+            self.problem = self.problem or "no Holder"
+            return out
+        for f in holder.fields:
+            t = self.target(parser, f.data_type)
+            if t is None:
+                self.problem = self.problem or f"field {f.name} has no modelled type"
+                continue
+            d = f.default
+            if isinstance(d, Member):
+                dv = f"m {self.id_of(d.enum)} {self.val(d.field.default)}"
+            elif d is None:
+                dv = "-"
+            else:
+                dv = f"r {self.val(d)}"
+            out.append(f"{t[0]} {t[1]} {dv}")
+        return out
+
+    def initial(self, parser: Any, models: list) -> tuple[list[str], list[str], list[str]]:
+        from datamodel_code_generator.model.base import UNDEFINED
+        from datamodel_code_generator.model.enum import Enum as EnumModel
+        from datamodel_code_generator.parser.base import to_hashable
+
+        keys: list[Any] = []
+        classes, roots = [], []
+        for m in models:
+            if isinstance(m, EnumModel):
+                k = tuple(to_hashable(v) for v in (m.render(class_name="M"), m.imports))
+                if k not in keys:
+                    keys.append(k)
+                classes.append(f"({self.id_of(m)} {keys.index(k)})")
+        for m in models:
+            if isinstance(m, parser.data_model_root_type):
+                t = self.target(parser, m.fields[0].data_type)
+                if t is None or t[0] != "e":
+                    self.problem = self.problem or "root model not around an enum"
+                    continue
+                d = "-" if m.default is UNDEFINED or m.default is None else str(self.val(m.default))
+                roots.append(f"({self.id_of(m)} {t[1]} {d})")
+        return classes, roots, [f"({f})" for f in self.fields(parser, models)]
+
+    def final(self, parser: Any, models: list) -> str:
+        from datamodel_code_generator.model.enum import Enum as EnumModel
+
+        live = sorted({self.id_of(m) for m in models if isinstance(m, EnumModel)})
+        fs = []
+        for f in self.fields(parser, models):
+            p = f.split(" ")
+            fs.append(f"{p[0]}{p[1]}:" + ("-" if p[2] == "-" else f"r{p[3]}" if p[2] == "r" else f"m{p[3]}.{p[4]}"))
+        return "ok (" + " ".join(map(str, live)) + ") (" + " ".join(fs) + ")"
+
+
+def canon_reply(rep: str) -> str:
+    if not rep.startswith("ok ("):
+        return rep
+    head, _, rest = rep[4:].partition(") ")
+    return "ok (" + " ".join(map(str, sorted(int(x) for x in head.split()))) + ") " + rest
+
+
+def campaign_passes(ck: Check, n: int) -> None:
+    """`Dcg.Model.ParsePasses.run` (abstract semantics of __set_reference_default_value_to_field, __reuse_model, __collapse_root_models,
+    __set_default_enum_member) against the REAL passes, run by `permuted_passes` in every order of the four, on real model lists"""
+    camp = ck.campaign("passes.run (Model.ParsePasses.run: live Enum classes, field types and defaults) vs the real post-passes of Parser.parse run "
+                       "in a permuted order on the models of small documents; passes.order vs the extracted call list [ParsePasses]")
+    t0 = time.time()
+    rng = ck.rng.fork("passes")
+    from ..translate import parse_passes
+
+    # the order predicate of the driver on the extracted list (the same value the kernel decides in Props/C09)
+    calls, problem = parse_passes.extract()
+    rep = ck.driver.run(["passes.order (" + " ".join(f"({n_} {int(g)})" for n_, g in calls) + ")"])[0]
+    camp.evaluations += 1
+    camp.hit("order_predicate:" + rep.split(" ")[0])
+    ck.notes["parse_pass_order"] = {"calls": [n_ for n_, _ in calls], "predicate": rep, "problem": problem}
+    names = [n_ for n_, _ in calls]
+    if problem or sorted(set(FOUR) - set(names)) or len(names) != len(set(names)):
+        # the loop is not what the permuting harness needs (a pass is missing / doubled): the obligation is broken anyway
+        camp.unmodelled += n
+        camp.wall_s = time.time() - t0
+        return
+    cases = PCORPUS + [gen_pcase(rng) for _ in range(n)]
+    reqs, metas = [], []
+    for pc in cases:
+        camp.evaluations += 1
+        ab = _Abstraction()
+        snap: dict[str, Any] = {}
+        order = full_order(pc["four"])
+
+        def at_start(parser: Any, models: list, *_: Any) -> None:
+            if "init" not in snap:  # the root module `__init__` of a one-module document: the only iteration with models
+                if any(m.class_name == "Holder" for m in models):
+                    snap["init"] = ab.initial(parser, models)
+                    # the options as the parser has them (generate() switches set_default_enum_member on for dataclass output)
+                    snap["opts"] = tuple(int(bool(getattr(parser, k))) for k in ("reuse_model", "collapse_root_models", "set_default_enum_member"))
+
+        def at_end(parser: Any, models: list, *_: Any) -> None:
+            if "init" in snap and "final" not in snap:
+                snap["final"] = ab.final(parser, models)
+
+        with permuted_passes(order, {pc["four"][0]: at_start, "<end>": at_end}):
+            res = observe(pc)
+        o = pc["opts"]
+        combo = "+".join(k for k in ("reuse_model", "collapse_root_models") if o.get(k)) or "neither"
+        if not res.ok or "final" not in snap or ab.problem:
+            camp.unmodelled += 1
+            camp.hit("unmodelled:" + (res.error_type or ab.problem or "no snapshot"))
+            continue
+        cl, ro, fl = snap["init"]
+        reqs.append(f"passes.run {' '.join(map(str, snap['opts']))} "
+                    f"({' '.join(order)}) ({' '.join(cl)}) ({' '.join(ro)}) ({' '.join(fl)})")
+        metas.append((pc, snap["final"], combo))
+    for (pc, impl, combo), rep in zip(metas, ck.driver.run(reqs)):
+        camp.hit("options:" + combo)
+        camp.hit("order:" + ">".join(x.split("_")[0] + ("R" if x == "set_reference_default_value_to_field" else "") for x in pc["four"]))
+        if " m" in impl or ":m" in impl:
+            camp.hit("has_member_default")
+        if ":r" in impl:
+            camp.hit("has_raw_default_left")
+        camp.distinct.add(json.dumps(pc, sort_keys=True, default=str))
+        if canon_reply(rep) != impl:
+            ck.disagree(camp, pc, canon_reply(rep), impl)
+        elif len(camp.samples) < 2 and combo != "neither" and pc["four"] != FOUR:
+            camp.samples.append({"four": pc["four"], "options": combo, "final": impl})
+    camp.wall_s = time.time() - t0
+
+
+def _pc(defs: list[dict], fields: list[dict], four: list[str], **opts: Any) -> dict:
+    return {"okind": "single", "model": "pydantic_v2.BaseModel", "opts": {"set_default_enum_member": True, **opts}, "defs": defs,
+            "holder": {"name": "Holder", "module": [], "at": "root", "pos": 9}, "fields": fields, "four": four}
+
+
+def _E(name: str, vals: list) -> dict:
+    return {"name": name, "module": [], "is": "enum", "type": "string", "values": vals}
+
+
+def _F(name: str, target: str, **kw: Any) -> dict:
+    return {"name": name, "shape": "scalar", "to": {"def": target}, "wrap": "ref", **kw}
+
+
+_DUP = [_E("Colour", ["v0", "v1"]), _E("Tint", ["v0", "v1"])]
+_DUPF = [_F("first", "Colour", default="v1"), _F("second", "Tint", default="v0")]
+_ROOT = [_E("Colour", ["v0", "v1", None]), _E("Tint", ["v0", "v1"]), {"name": "Shade", "module": [], "is": "alias", "target": "Tint", "default": "v1"}]
+_ROOTF = [_F("first", "Colour", default="v1"), _F("second", "Shade"), _F("third", "Shade", default="v0")]
+PCORPUS: list[dict] = [
+    _pc(_DUP, _DUPF, FOUR, reuse_model=True),
+    _pc(_DUP, _DUPF, ["set_reference_default_value_to_field", "set_default_enum_member", "reuse_model", "collapse_root_models"], reuse_model=True),
+    _pc(_ROOT, _ROOTF, FOUR, collapse_root_models=True),
+    _pc(_ROOT, _ROOTF, ["set_reference_default_value_to_field", "set_default_enum_member", "reuse_model", "collapse_root_models"], collapse_root_models=True),
+    _pc(_ROOT, _ROOTF, ["collapse_root_models", "set_reference_default_value_to_field", "reuse_model", "set_default_enum_member"], collapse_root_models=True, reuse_model=True),
+    _pc(_ROOT, _ROOTF, FOUR),
+]
+
+
+def campaigns(ck: Check, quick: bool) -> None:
+    """everything of this file that runs in the main check"""
+    campaign_passes(ck, 200 if quick else 2400)
+    campaign_order(ck, 260 if quick else 2600, full_scope=not quick)
